@@ -53,7 +53,8 @@ def run(chk):
             args += ['--basic-auth', auth.decode()]
         if disabled:
             args += ['--disable-headers', ','.join(d.decode() for d in disabled)]
-        conv = scen.Conversation(args=args)
+        threaded = k % 4 == 3          # every fourth conversation with the connection handled as --threaded mode does
+        conv = scen.Conversation(args=args, threaded=threaded)
         c = conv.client()
         nreq = 1 + k % 3
         reqs, ds = [], []
@@ -74,7 +75,7 @@ def run(chk):
         ugot = t['upstreams'][0]['got'] if t['upstreams'] else b''
         cid = len(cases) + 1
         cases.append({'id': cid, 'reqs': [list(r) for r in reqs], 'ugot': list(ugot), 'disabled': [list(d) for d in disabled]})
-        descs[cid] = {'auth': bool(auth), 'disabled': [d.decode() for d in disabled], 'requests': ds,
+        descs[cid] = {'mode': 'threaded' if threaded else 'threadless', 'auth': bool(auth), 'disabled': [d.decode() for d in disabled], 'requests': ds,
                       'client_got_responses': t['clients'][0]['got'].count(b'HTTP/1.1 200 OK'), 'loop_alive': t['alive']}
         if not t['alive']:
             chk.notes.append('executor loop died in conversation %d: %s (reported under C05)' % (cid, t['loop_error']))
